@@ -110,7 +110,7 @@ def run_shard(spec):
         res["sets"]["sum_classes"].append(sum_class(sum(img)))
         if i < 1:
             res["samples"].append({"kind": "fmt", "base": base, "len": len(img), "sum": sum(img), "name": name.decode("latin-1")})
-    n_cli = (320 if quick else 5000) // spec["parts"]
+    n_cli = (640 if quick else 8000) // spec["parts"]
     for i in range(n_cli):
         case = gen_cli_case(rnd, i)
         case["plain"] = (i % 10 == 0)
@@ -185,7 +185,7 @@ def gen_cli_case(rnd, i):
                 d[2] = rnd.choice(["ЖУК", "игра", "Тест 1", "Ёж", "Привет", "абвгдежз", "абвгдежзи"])     # 3..9 letters = 6..18 bytes in utf-8
     incdir = rnd.choice([None, None, None, "lib", "lib/deep"]) if directives and not any((d[1] or "").startswith("../") or "/../" in (d[1] or "") for d in directives) else None
     return {"charset": charset, "incdir": incdir, "stale": rnd.random() < 0.3, "dcase": rnd.choice([0, 0, 0xFFFF, rnd.randrange(1 << 16)]), "kind": "cli", "base": base, "image": img.hex(), "src": stem + suffix, "srcdir": srcdir, "directives": directives,
-            "opts": opts, "where": rnd.choice(["top", "bottom", "middle"]), "quote": rnd.choice("\"'/"), "second": second}
+            "opts": opts, "where": rnd.choice(["top", "bottom", "middle"]), "quote": rnd.choice("\"'/"), "second": second, "mirror": rnd.random() < 0.7}
 
 
 def case_signature(case):
@@ -347,8 +347,44 @@ def run_case(case, cnt=None):
         if case.get("second"):
             second = os.path.join(cwd, case["second"])
             os.makedirs(os.path.dirname(second), exist_ok=True)
+            dlines2 = []
+            if case.get("mirror") and not case.get("incdir"):
+                # the second source asks for outputs of its own, with directives of the same shape (same format, same place in the file,
+                # names of the same length) as the first one's: each is a request of its own, relative to ITS file
+                sdir = os.path.dirname(second)
+                for d, path, name in case["directives"]:
+                    if path is None or ".." in path:
+                        continue
+                    head, _, fn = path.rpartition("/")
+                    fn2 = ("Z" if fn[0] != "Z" else "Y") + fn[1:]
+                    p2 = ((head + "/") if head else "") + fn2
+                    p2 = p2.replace("@ABS@", absdir)
+                    line = d if not case.get("dcase") else "".join(c.upper() if (case["dcase"] >> (i % 16)) & 1 else c for i, c in enumerate(d))
+                    line += f" {q}{p2}{q}"
+                    target = os.path.normpath(p2) if os.path.isabs(p2) else os.path.normpath(os.path.join(sdir, p2))
+                    fmt = {"make_bin": "bin", "make_bk0010_rom": "bin", "make_raw": "raw", "make_wav": "bk_wav", "make_turbo_wav": "bk_turbo_wav"}[d]
+                    name16 = None
+                    if fmt.endswith("wav"):
+                        if name is not None:
+                            line += f", {q}{name}{q}"
+                            tape = name
+                        else:
+                            tape = os.path.basename(target)
+                            if tape.lower().endswith(".wav"):
+                                tape = tape[:-4]
+                        cs = case.get("charset")
+                        try:
+                            enc = bk_ref_encode(tape) if not cs else tape.encode(cs)
+                        except (UnicodeEncodeError, ValueError):
+                            enc = b"?" * 17
+                        name16 = enc[:16].ljust(16, b" ")
+                    os.makedirs(os.path.dirname(target), exist_ok=True)
+                    dlines2.append(line)
+                    expected[target] = (fmt, name16)
+                    n_req += 1
+                cnt["mirrored_directives"] = cnt.get("mirrored_directives", 0) + len(dlines2)
             with open(second, "w", encoding="utf-8") as f:
-                f.write("\n".join(body2) + "\n")
+                f.write("\n".join((dlines2 + body2) if case["where"] == "top" else (body2 + dlines2)) + "\n")
             argv.append(case["second"])
         opts = [o.replace("@ABS@", absdir) for o in case["opts"]]
         argv += opts
